@@ -30,6 +30,9 @@ def processLine (line : String) : String :=
   | .error e => s!"BADLINE {e}"
   | .ok j =>
     match str j "k" with
+    | "cfgerror" =>
+      -- the fixed texts of the dispatcher sweep must compile and its control edit must reload: otherwise the sweep shows nothing
+      if (str j "stage").startsWith "dispatcher" then s!"DIVERGE reload sweep not applicable: {str j "stage"}: {str j "err"}" else "ok"
     | "reload" =>
       let fail := str j "fail"
       let before := strs j "before"; let after := strs j "after"
@@ -39,7 +42,11 @@ def processLine (line : String) : String :=
       let probes := strs j "probes"
       let (ml, mok) := modelAttempt (fail != "none")
       if fail != "none" then
-        if ok then s!"PROP C18 failed-reload-reported-ok case={c} fail={fail}"
+        if ok then
+          -- a reload reported as applied while the dispatcher (built once) keeps signing / checking by the old configuration
+          let e := str j "restartEdit"
+          let also := if (e.splitOn "sign").length > 1 then ",C17" else if (e.splitOn "egress").length > 1 then ",C16" else ""
+          s!"PROP C18{also} failed-reload-reported-ok case={c} fail={fail} {e}"
         else if after != before then
           s!"PROP C18 failed-reload-changed-behaviour case={c} fail={fail} probe={probes.getD (firstDiff before after) ""} before={before.getD (firstDiff before after) ""} after={after.getD (firstDiff before after) ""}"
         else if mok || !(uniform ml 0) then s!"DIVERGE reload case={c}: model of reloadConfig changes state on a failed attempt"
